@@ -120,10 +120,13 @@ def load_findings():
 
 
 def write_evidence(prop, tier, seed, level, coverage, assumptions, wall, violations):
-    os.makedirs(os.path.join(VERIF, "evidence"), exist_ok=True)
+    evdir = os.path.join(VERIF, "evidence")
+    if REPO != "/repo":
+        evdir = os.path.join(VERIF, ".work", "evidence-dev")   # runs against a scratch copy never touch the registered evidence
+    os.makedirs(evdir, exist_ok=True)
     ev = {"property_id": prop, "tier": tier, "seed": seed, "level": level, "coverage": coverage,
           "assumptions": assumptions, "wall_s": round(wall, 2), "violations": violations}
-    with open(os.path.join(VERIF, "evidence", prop + ".json"), "w") as f:
+    with open(os.path.join(evdir, prop + ".json"), "w") as f:
         json.dump(ev, f, indent=1)
 
 
